@@ -37,4 +37,10 @@ CLAIMED["C01"] = (
     "per-node rng/params/state; the probe nodes' own traces (independent of rex recording) must agree bit for bit on every step inside the compiled horizon.",
     ASYNC_NOTE + "; external supergraph library trusted only through rex", "DESIGN.md §4 C01",
 )
+CLAIMED["C06"] = (
+    PBT + ": invariant over the execution history - host-side invocation counter per (node, episode, seq) compared with the record (threaded) and with Graph.timings (compiled)",
+    "Generated systems x per-node jit x driving APIs (run / reset+step / overridden supervisor) on both runtimes and all supergraph modes; a side-effecting probe step "
+    "counts its own executions: exactly 1 per recorded/scheduled tick, 0 for overridden, interrupted or masked ticks.",
+    ASYNC_NOTE + "; trailing supervisor row after stop() read as not executed", "DESIGN.md §4 C06",
+)
 NOT_APPLICABLE = {}
